@@ -30,13 +30,15 @@ TARGETS = {
         ("set", "#(3, 1, 2)", "#(1, 2)"), ("set_rest", "#(3, ..)", "#(4, ..)"),
         # forms that check nothing but the shape (every sub-pattern a wildcard): an expander may treat them specially
         ("set_wild", "#(_, _, _)", "#(_, _)"), ("set_any", "#(..)", None), ("set_wild_rest", "#(_, ..)", None), ("set_empty", None, "#()"),
-        ("slice_wild", "[_, _, _]", "[_, _]"), ("slice_any", "[..]", None)]),
+        ("slice_wild", "[_, _, _]", "[_, _]"), ("slice_any", "[..]", None),
+        # empty composites: they claim the value has NO elements, and fail on this one
+        ("slice_empty", None, "[]")]),
     "nc_vec": ("Vec<NC>", "vec![NC(\"a\".to_string()), NC(\"b\".to_string())]", [
         ("slice_nc", "[NC(\"a\"), NC(\"b\")]", "[NC(\"a\")]"), ("set_nc", "#(NC(\"b\"), NC(\"a\"))", "#(NC(\"b\"), NC(\"b\"))"),
         ("set_nc_wild", "#(_, _)", "#(_)"), ("set_nc_any", "#(..)", None), ("slice_nc_wild", "[_, ..]", None)]),
     "map": ("BTreeMap<String, i32>", "BTreeMap::from([(\"a\".to_string(), 1), (\"b\".to_string(), 2)])", [
         ("map", "#{ \"a\": 1, \"b\": 2 }", "#{ \"a\": 1 }"), ("map_rest", "#{ \"a\": 1, .. }", "#{ \"a\": 2, .. }"),
-        ("map_missing", None, "#{ \"z\": 1, .. }"), ("map_any", "#{ .. }", None), ("map_wild", "#{ \"a\": _, \"b\": _ }", "#{ \"a\": _ }")]),
+        ("map_missing", None, "#{ \"z\": 1, .. }"), ("map_any", "#{ .. }", None), ("map_empty", None, "#{}"), ("map_wild", "#{ \"a\": _, \"b\": _ }", "#{ \"a\": _ }")]),
     "struct": ("Leaf", "Leaf { n: 7, s: \"hello\".to_string() }", [
         ("struct", "Leaf { n: 7, s: \"hello\" }", "Leaf { n: 8, s: \"hello\" }"), ("struct_rest", "Leaf { n: > 6, .. }", "Leaf { n: > 7, .. }"),
         ("wstruct", "_ { n: 7, .. }", "_ { n: 8, .. }"), ("struct_ops", "Leaf { s.len(): 5, .. }", "Leaf { s.len(): 4, .. }"),
